@@ -81,7 +81,8 @@ func (c c04Case) script() string {
 	for _, o := range c.Options {
 		b.WriteString(o.source(true) + "\n")
 	}
-	b.WriteString("===\n")
+	// the node jumps back to itself: everything is rendered a second time by the same runner
+	b.WriteString("<<jump Start>>\n===\n")
 	return b.String()
 }
 
@@ -162,6 +163,61 @@ func sigDigits(s string) int {
 	return len(strings.TrimRight(digits, "0"))
 }
 
+// c04Round renders every element of the node once (the node is run twice by the same runner).
+func c04Round(c c04Case, h *host, src string, check func(string, c04Line, string, []string) *Verdict, round int) ([]string, *Verdict) {
+	cls := []string{}
+	if c.FailFirst {
+		for i := 0; i < 3; i++ { // a failing line, a failing option group, a line whose markup fails
+			if ev := h.step(0); ev.K != "err" {
+				v := failf("the %d. deliberately failing element did not fail: %s\nscript:\n%s", i+1, ev, src)
+				return nil, &v
+			}
+		}
+		if ev := h.step(0); ev.K != "line" || ev.Text != "separator" {
+			v := failf("after three failing elements the line \"separator\" is rendered as %s\nscript:\n%s", ev, src)
+			return nil, &v
+		}
+		cls = append(cls, "after-failing-elements")
+	}
+	for i, l := range c.Lines {
+		ev := h.step(0)
+		if ev.K != "line" {
+			v := failf("line %d written as %q: expected a line, got %s\nscript:\n%s", i, l.source(false), ev, src)
+			return nil, &v
+		}
+		if v := check(fmt.Sprintf("line %d", i), l, ev.Text, ev.Tags); v != nil {
+			return nil, v
+		}
+	}
+	if len(c.Options) > 0 {
+		ev := h.step(0)
+		if ev.K != "opts" {
+			v := failf("expected the option group, got %s\nscript:\n%s", ev, src)
+			return nil, &v
+		}
+		if len(ev.Opts) != len(c.Options) {
+			v := failf("%d options returned for %d written\nscript:\n%s", len(ev.Opts), len(c.Options), src)
+			return nil, &v
+		}
+		conds := 0
+		for i, o := range c.Options {
+			if v := check(fmt.Sprintf("option %d", i), o, ev.Opts[i].Text, ev.Opts[i].Tags); v != nil {
+				return nil, v
+			}
+			wantDisabled := o.Cond != nil && !o.CondVal
+			if ev.Opts[i].Disabled != wantDisabled {
+				v := failf("option %d written as %q: Disabled = %v, want %v", i, o.source(true), ev.Opts[i].Disabled, wantDisabled)
+				return nil, &v
+			}
+			if o.Cond != nil {
+				conds++
+			}
+		}
+		cls = append(cls, fmt.Sprintf("options=%d conditions=%d", len(c.Options), conds))
+	}
+	return cls, nil
+}
+
 func runC04(c c04Case) Verdict {
 	for k, v := range c.Vars {
 		v.fix()
@@ -190,48 +246,14 @@ func runC04(c c04Case) Verdict {
 	}
 	escapes, interpolations, tagsAndComment := 0, 0, false
 	cls := []string{}
-	if c.FailFirst {
-		for i := 0; i < 3; i++ { // a failing line, a failing option group, a line whose markup fails
-			if ev := h.step(0); ev.K != "err" {
-				return failf("the %d. deliberately failing element did not fail: %s\nscript:\n%s", i+1, ev, src)
-			}
-		}
-		if ev := h.step(0); ev.K != "line" || ev.Text != "separator" {
-			return failf("after three failing elements the line \"separator\" is rendered as %s\nscript:\n%s", ev, src)
-		}
-		cls = append(cls, "after-failing-elements")
-	}
-	for i, l := range c.Lines {
-		ev := h.step(0)
-		if ev.K != "line" {
-			return failf("line %d written as %q: expected a line, got %s\nscript:\n%s", i, l.source(false), ev, src)
-		}
-		if v := check(fmt.Sprintf("line %d", i), l, ev.Text, ev.Tags); v != nil {
+	for round := 1; round <= 2; round++ {
+		roundCls, v := c04Round(c, h, src, check, round)
+		if v != nil {
 			return *v
 		}
-	}
-	if len(c.Options) > 0 {
-		ev := h.step(0)
-		if ev.K != "opts" {
-			return failf("expected the option group, got %s\nscript:\n%s", ev, src)
+		if round == 1 {
+			cls = append(cls, roundCls...)
 		}
-		if len(ev.Opts) != len(c.Options) {
-			return failf("%d options returned for %d written\nscript:\n%s", len(ev.Opts), len(c.Options), src)
-		}
-		conds := 0
-		for i, o := range c.Options {
-			if v := check(fmt.Sprintf("option %d", i), o, ev.Opts[i].Text, ev.Opts[i].Tags); v != nil {
-				return *v
-			}
-			wantDisabled := o.Cond != nil && !o.CondVal
-			if ev.Opts[i].Disabled != wantDisabled {
-				return failf("option %d written as %q: Disabled = %v, want %v", i, o.source(true), ev.Opts[i].Disabled, wantDisabled)
-			}
-			if o.Cond != nil {
-				conds++
-			}
-		}
-		cls = append(cls, fmt.Sprintf("options=%d conditions=%d", len(c.Options), conds))
 	}
 	for _, l := range append(append([]c04Line{}, c.Lines...), c.Options...) {
 		for i, p := range l.Parts {
@@ -378,7 +400,11 @@ func genC04Line(t *rapid.T, c *c04Case, option bool) c04Line {
 		default:
 			name := fmt.Sprintf("v%d", len(c.Vars))
 			var e *Expr
-			switch rapid.IntRange(0, 5).Draw(t, "exprkind") {
+			switch rapid.IntRange(0, 7).Draw(t, "exprkind") {
+			case 6:
+				e = neg(num(rapid.SampledFrom([]string{"5", "0.25", "12", "0"}).Draw(t, "lit")))
+			case 7:
+				e = not(boolean(rapid.Bool().Draw(t, "lit")))
 			case 0, 1:
 				c.Vars[name] = numVal(genC04Number(t))
 				e = varRef(name)
@@ -422,7 +448,15 @@ func genC04Line(t *rapid.T, c *c04Case, option bool) c04Line {
 	l.Trail = rapid.SampledFrom([]int{0, 0, 0, 1, 3}).Draw(t, "trail")
 	if option && rapid.Bool().Draw(t, "cond") {
 		l.CondVal = rapid.Bool().Draw(t, "condval")
-		switch rapid.IntRange(0, 2).Draw(t, "condkind") {
+		switch rapid.IntRange(0, 4).Draw(t, "condkind") {
+		case 3:
+			l.Cond = not(boolean(!l.CondVal))
+		case 4:
+			if l.CondVal {
+				l.Cond = bin(">", num("1"), neg(num("2")))
+			} else {
+				l.Cond = bin("<", num("1"), neg(num("2")))
+			}
 		case 0:
 			l.Cond = boolean(l.CondVal)
 		case 1:
